@@ -388,6 +388,9 @@ End Resolve.
 
 (* ---------- the whole pass: position_finish_offsets ---------- *)
 
+(* 64 as a unary numeral: never unfold it during proof search or conversion *)
+Opaque MAX_NESTING_LEVEL.
+
 Lemma cdepth_S : forall f ps k,
   cdepth (S f) ps k =
   if chain (getp ps k) =? 0 then O
@@ -431,7 +434,7 @@ Lemma propagate_all_inv : forall d ps0 rk,
   (forall i, In i is -> chain (getp F i) = 0) /\
   (forall k, chain (getp ps k) = 0 -> getp F k = getp ps k).
 Proof.
-  intros d ps0 rk Hrk Hdepth. induction is as [|i t IH]; intros ps F Inv Hrun; cbn in Hrun.
+  intros d ps0 rk Hrk Hdepth. induction is as [|i t IH]; intros ps F Inv Hrun; cbn [propagate_all] in Hrun.
   - inversion Hrun; subst. split; [exact Inv|]. split; [intros i []|]. reflexivity.
   - destruct (propagate MAX_NESTING_LEVEL d ps i) as [ps1|] eqn:E1; [|discriminate].
     destruct (propagate_inv d ps0 rk Hrk MAX_NESTING_LEVEL ps i ps1 (fun _ => False) Inv) as (Inv1 & Hi0 & Hfr1); auto.
@@ -555,5 +558,266 @@ Qed.
    child of its successor (what the RightToLeft lookup flag produces): the call on glyph 0 nests n-1 deep *)
 Definition chain_fwd (n : nat) : list pos := repeat (mkPos 0 0 0 0 1 ATTACH_CURSIVE) n.
 
+Lemma nth_repeat_in : forall A (a dflt : A) n k, (k < n)%nat -> nth k (repeat a n) dflt = a.
+Proof. induction n; destruct k; cbn; intros; try lia; auto. apply IHn. lia. Qed.
+
 Lemma getp_chain_fwd : forall n k, (k < n)%nat -> getp (chain_fwd n) k = mkPos 0 0 0 0 1 ATTACH_CURSIVE.
-Proof. intros. unfold getp, chain_fwd. apply nth_repeat_lt. assumption. Qed.
+Proof. intros. unfold getp, chain_fwd. apply nth_repeat_in. assumption. Qed.
+
+(* without a nesting bound the recursion depth equals the number of links of the chain *)
+Lemma unbounded_depth_chain : forall m d ps k fuel,
+  length ps = (k + S m)%nat ->
+  (forall t, (k <= t < k + S m)%nat -> chain (getp ps t) = 1 /\ atype (getp ps t) = ATTACH_CURSIVE) ->
+  (m < fuel)%nat ->
+  exists ps', propagate_unbounded fuel d ps k = Some (ps', m) /\ length ps' = length ps.
+Proof.
+  induction m; intros d ps k fuel Hl Hall Hf; (destruct fuel as [|fuel]; [lia|]); cbn [propagate_unbounded].
+  - destruct (Hall k ltac:(lia)) as [Hc Ht]. rewrite Hc. cbn [Z.eqb].
+    unfold parent_index. rewrite Hc, Hl.
+    replace ((Z.of_nat k + 1 <? 0) || (Z.of_nat (k + 1) <=? Z.of_nat k + 1))%bool with true
+      by (symmetry; apply orb_true_iff; right; apply Z.leb_le; lia).
+    eexists. split; [reflexivity | rewrite length_upd; exact Hl].
+  - destruct (Hall k ltac:(lia)) as [Hc Ht]. rewrite Hc. cbn [Z.eqb].
+    unfold parent_index at 1. rewrite Hc, Hl.
+    replace ((Z.of_nat k + 1 <? 0) || (Z.of_nat (k + S (S m)) <=? Z.of_nat k + 1))%bool with false
+      by (symmetry; apply orb_false_iff; split; [apply Z.ltb_ge | apply Z.leb_gt]; lia).
+    replace (Z.to_nat (Z.of_nat k + 1)) with (S k) by lia.
+    destruct (IHm d (upd ps k (set_chain (getp ps k) 0)) (S k) fuel) as (ps2 & E2 & L2).
+    + rewrite length_upd. lia.
+    + intros t Ht'. rewrite getp_upd_other by lia. apply Hall. lia.
+    + lia.
+    + rewrite E2, Ht. cbn [N.eqb Pos.eqb ATTACH_CURSIVE ATTACH_MARK andb].
+      eexists. split; [reflexivity|]. rewrite attach_accumulate_length, L2, length_upd. exact Hl.
+Qed.
+
+Corollary unbounded_depth_witness : forall n d, (0 < n)%nat ->
+  exists ps', propagate_unbounded n d (chain_fwd n) 0 = Some (ps', (n - 1)%nat).
+Proof.
+  intros n d Hn. destruct (unbounded_depth_chain (n - 1) d (chain_fwd n) 0 n) as (ps' & E & _).
+  - unfold chain_fwd. rewrite repeat_length. lia.
+  - intros t Ht. rewrite getp_chain_fwd by lia. split; reflexivity.
+  - lia.
+  - exists ps'. exact E.
+Qed.
+
+(* ====================================================================================== *)
+(* cursive attachment: one connection on a buffer without earlier attachments, then the finish *)
+
+Lemma rcmo_noop : forall fuel d ps c np, chain (getp ps c) = 0 -> reverse_cursive_minor_offset fuel d ps c np = ps.
+Proof. intros. destruct fuel; cbn; [reflexivity|]. rewrite H. reflexivity. Qed.
+
+Lemma adv_sum_zero : forall n ps a,
+  (forall k, (a <= k < a + n)%nat -> xa (getp ps k) = 0 /\ ya (getp ps k) = 0) -> adv_sum ps a n = (0, 0).
+Proof.
+  induction n; intros ps a H; cbn; [reflexivity|].
+  rewrite IHn by (intros; apply H; lia). destruct (H a ltac:(lia)) as [-> ->]. reflexivity.
+Qed.
+
+(* normalisation of reads after writes at the two known indices *)
+Ltac getp_norm :=
+  repeat (rewrite getp_upd; rewrite ?length_upd);
+  repeat match goal with
+         | |- context [(?a =? ?a)%nat] => rewrite (Nat.eqb_refl a)
+         | H : (?a < ?b)%nat |- context [(?a <? ?b)%nat] => rewrite (proj2 (Nat.ltb_lt a b) H)
+         | |- context [(?a =? ?b)%nat] => rewrite (proj2 (Nat.eqb_neq a b)) by lia
+         end;
+  cbn [andb].
+
+Section OneConnection.
+Variables (flag : bool) (ps : list pos) (i j : nat) (ex en : anchor).
+Hypothesis Hij : (i < j < length ps)%nat.
+Hypothesis fresh : forall k, chain (getp ps k) = 0.
+
+Let Hi : (i < length ps)%nat. Proof. lia. Qed.
+Let Hj : (j < length ps)%nat. Proof. lia. Qed.
+
+(* the positions after the connection, for each processing direction *)
+Lemma connect_other : forall d k, k <> i -> k <> j -> getp (cursive_connect d flag ps i j ex en) k = getp ps k.
+Proof.
+  intros d k Hki Hkj. unfold cursive_connect, cursive_cross, cursive_main.
+  destruct ex as [exx exy], en as [enx eny].
+  destruct d, flag;
+    rewrite rcmo_noop by (getp_norm; cbn; apply fresh);
+    match goal with |- context [if ?c then _ else _] => destruct c end;
+    getp_norm; reflexivity.
+Qed.
+
+Lemma connect_length : forall d, length (cursive_connect d flag ps i j ex en) = length ps.
+Proof.
+  intros d. unfold cursive_connect, cursive_cross, cursive_main.
+  destruct ex as [exx exy], en as [enx eny].
+  destruct d, flag;
+    rewrite rcmo_noop by (getp_norm; cbn; apply fresh);
+    match goal with |- context [if ?c then _ else _] => destruct c end;
+    rewrite ?length_upd; reflexivity.
+Qed.
+
+(* resolve the 2-cycle test of cursive_cross: the parent has no link, the child's link is not zero *)
+Ltac connect_unfold :=
+  unfold cursive_connect, cursive_cross, cursive_main;
+  rewrite rcmo_noop by (getp_norm; cbn; apply fresh);
+  match goal with
+  | |- context [if (?a =? ?b)%Z then _ else _] =>
+      let E := fresh "E" in
+      destruct (Z.eqb_spec a b) as [E|E];
+      [exfalso; revert E; getp_norm; cbn; rewrite ?fresh; lia|]
+  end.
+
+Lemma connect_ltr :
+  let ps0 := cursive_connect LTR flag ps i j ex en in
+  let pi := getp ps i in let pj := getp ps j in
+  getp ps0 i = (if flag then mkPos (fst ex + xo pi) (ya pi) (xo pi) (snd en - snd ex) (Z.of_nat j - Z.of_nat i) ATTACH_CURSIVE
+                else mkPos (fst ex + xo pi) (ya pi) (xo pi) (yo pi) 0 (atype pi)) /\
+  getp ps0 j = (if flag then mkPos (xa pj - (fst en + xo pj)) (ya pj) (- fst en) (yo pj) 0 (atype pj)
+                else mkPos (xa pj - (fst en + xo pj)) (ya pj) (- fst en) (snd ex - snd en) (Z.of_nat i - Z.of_nat j) ATTACH_CURSIVE).
+Proof.
+  cbn zeta. destruct ex as [exx exy], en as [enx eny]. cbn [fst snd].
+  destruct flag; connect_unfold; getp_norm; unfold set_chain, set_atype, set_yo, set_xo, set_xa; cbn;
+    rewrite ?fresh; split; f_equal; lia.
+Qed.
+
+Lemma connect_rtl :
+  let ps0 := cursive_connect RTL flag ps i j ex en in
+  let pi := getp ps i in let pj := getp ps j in
+  getp ps0 i = (if flag then mkPos (xa pi - (fst ex + xo pi)) (ya pi) (- fst ex) (snd en - snd ex) (Z.of_nat j - Z.of_nat i) ATTACH_CURSIVE
+                else mkPos (xa pi - (fst ex + xo pi)) (ya pi) (- fst ex) (yo pi) 0 (atype pi)) /\
+  getp ps0 j = (if flag then mkPos (fst en + xo pj) (ya pj) (xo pj) (yo pj) 0 (atype pj)
+                else mkPos (fst en + xo pj) (ya pj) (xo pj) (snd ex - snd en) (Z.of_nat i - Z.of_nat j) ATTACH_CURSIVE).
+Proof.
+  cbn zeta. destruct ex as [exx exy], en as [enx eny]. cbn [fst snd].
+  destruct flag; connect_unfold; getp_norm; unfold set_chain, set_atype, set_yo, set_xo, set_xa; cbn;
+    rewrite ?fresh; split; f_equal; lia.
+Qed.
+
+Lemma connect_ttb :
+  let ps0 := cursive_connect TTB flag ps i j ex en in
+  let pi := getp ps i in let pj := getp ps j in
+  getp ps0 i = (if flag then mkPos (xa pi) (snd ex + yo pi) (fst en - fst ex) (yo pi) (Z.of_nat j - Z.of_nat i) ATTACH_CURSIVE
+                else mkPos (xa pi) (snd ex + yo pi) (xo pi) (yo pi) 0 (atype pi)) /\
+  getp ps0 j = (if flag then mkPos (xa pj) (ya pj - (snd en + yo pj)) (xo pj) (- snd en) 0 (atype pj)
+                else mkPos (xa pj) (ya pj - (snd en + yo pj)) (fst ex - fst en) (- snd en) (Z.of_nat i - Z.of_nat j) ATTACH_CURSIVE).
+Proof.
+  cbn zeta. destruct ex as [exx exy], en as [enx eny]. cbn [fst snd].
+  destruct flag; connect_unfold; getp_norm; unfold set_chain, set_atype, set_yo, set_xo, set_ya; cbn;
+    rewrite ?fresh; split; f_equal; lia.
+Qed.
+
+End OneConnection.
+
+(* ---------- one link, resolved ---------- *)
+
+Lemma udepth_le_more : forall m n ps k, (n <= m)%nat -> udepth_le n ps k -> udepth_le m ps k.
+Proof.
+  induction m; intros n ps k H Hd.
+  - replace n with O in Hd by lia. exact Hd.
+  - destruct (Nat.eq_dec n (S m)) as [->|]; [exact Hd|]. apply udepth_weaken. apply (IHm n); [lia | exact Hd].
+Qed.
+
+Lemma max_nesting_pos : (1 <= MAX_NESTING_LEVEL)%nat.
+Proof. Transparent MAX_NESTING_LEVEL. unfold MAX_NESTING_LEVEL. lia. Opaque MAX_NESTING_LEVEL. Qed.
+
+Lemma finish_one_link : forall d ps0 c p F,
+  (forall k, k <> c -> chain (getp ps0 k) = 0) ->
+  chain (getp ps0 c) <> 0 -> parent_index ps0 c = Some p -> p <> c ->
+  position_finish_offsets d true ps0 = Some F ->
+  length F = length ps0 /\
+  (forall k, k <> c -> getp F k = getp ps0 k) /\
+  getp F c = accum_val d (atype (getp ps0 c)) (set_chain (getp ps0 c) 0) (getp ps0 p) (accum_sum d ps0 c p).
+Proof.
+  intros d ps0 c p F Hz Hc Hp Hpc Hrun.
+  assert (Hd : forall k, udepth_le MAX_NESTING_LEVEL ps0 k).
+  { intro k. apply (udepth_le_more _ 1); [apply max_nesting_pos|].
+    destruct (Nat.eq_dec k c) as [->|Hk]; [|left; apply Hz; exact Hk].
+    cbn. right. rewrite Hp. left. apply Hz. exact Hpc. }
+  destruct (finish_resolved d ps0 F Hd Hrun) as (Hl & _ & Hroot & Hr).
+  split; [exact Hl|]. split; [intros k Hk; apply Hroot; apply Hz; exact Hk|].
+  specialize (Hr c Hc). rewrite Hp in Hr. rewrite Hr. rewrite (Hroot p) by (apply Hz; exact Hpc). reflexivity.
+Qed.
+
+Lemma pen_S : forall ps m,
+  pen ps (S m) = (fst (pen ps m) + xa (getp ps m), snd (pen ps m) + ya (getp ps m)).
+Proof.
+  intros. unfold pen. replace (S m) with (m + 1)%nat by lia. rewrite adv_sum_split. cbn. f_equal; lia.
+Qed.
+
+Lemma pen_snd_zero : forall ps m, (forall k, ya (getp ps k) = 0) -> snd (pen ps m) = 0.
+Proof. intros ps m H. induction m; [reflexivity|]. rewrite pen_S. cbn. rewrite IHm, H. reflexivity. Qed.
+
+Lemma pen_fst_zero : forall ps m, (forall k, xa (getp ps k) = 0) -> fst (pen ps m) = 0.
+Proof. intros ps m H. induction m; [reflexivity|]. rewrite pen_S. cbn. rewrite IHm, H. reflexivity. Qed.
+
+(* the advance sum of i .. j-1 when only glyph i advances *)
+Lemma adv_sum_first_only : forall ps i j,
+  (i < j)%nat -> (forall k, (i < k < j)%nat -> xa (getp ps k) = 0 /\ ya (getp ps k) = 0) ->
+  adv_sum ps i (j - i) = (xa (getp ps i), ya (getp ps i)).
+Proof.
+  intros ps i j Hij H. replace (j - i)%nat with (S (j - i - 1)) by lia. cbn [adv_sum].
+  rewrite adv_sum_zero by (intros; apply H; lia). f_equal; lia.
+Qed.
+
+(* the advance sum of i+1 .. j when only glyph j advances *)
+Lemma adv_sum_last_only : forall ps i j,
+  (i < j)%nat -> (forall k, (i < k < j)%nat -> xa (getp ps k) = 0 /\ ya (getp ps k) = 0) ->
+  adv_sum ps (S i) (j - i) = (xa (getp ps j), ya (getp ps j)).
+Proof.
+  intros ps i j Hij H. replace (j - i)%nat with ((j - i - 1) + 1)%nat by lia. rewrite adv_sum_split.
+  rewrite adv_sum_zero by (intros; apply H; lia). cbn.
+  replace (S (i + (j - i - 1))) with j by lia. f_equal; lia.
+Qed.
+
+Section OneConnectionFinal.
+Variables (flag : bool) (ps : list pos) (i j : nat) (ex en : anchor) (F : list pos).
+Hypothesis Hij : (i < j < length ps)%nat.
+Hypothesis fresh : forall k, chain (getp ps k) = 0.
+(* the glyphs strictly between the two (skipped by the lookup) do not advance the pen *)
+Hypothesis between : forall k, (i < k < j)%nat -> xa (getp ps k) = 0 /\ ya (getp ps k) = 0.
+
+Ltac one_link d :=
+  match goal with
+  | Hrun : position_finish_offsets d true ?ps0 = Some F |- _ =>
+    let c := constr:(if flag then i else j) in
+    let p := constr:(if flag then j else i) in
+    idtac
+  end.
+
+(* LTR *)
+Theorem cursive_single_ltr :
+  (forall k, ya (getp ps k) = 0) ->
+  position_finish_offsets LTR true (cursive_connect LTR flag ps i j ex en) = Some F ->
+  anchor_abs F j en = anchor_abs F i ex.
+Proof.
+  intros axis Hrun.
+  destruct (connect_ltr flag ps i j ex en Hij fresh) as [Ci Cj]. cbn zeta in Ci, Cj.
+  pose proof (connect_other flag ps i j ex en Hij fresh LTR) as Co.
+  pose proof (connect_length flag ps i j ex en Hij fresh LTR) as Cl.
+  set (ps0 := cursive_connect LTR flag ps i j ex en) in *.
+  assert (Hz : forall k, k <> (if flag then i else j) -> chain (getp ps0 k) = 0).
+  { intros k Hk. destruct (Nat.eq_dec k i) as [->|Hki]; [rewrite Ci; destruct flag; [congruence | reflexivity]|].
+    destruct (Nat.eq_dec k j) as [->|Hkj]; [rewrite Cj; destruct flag; [reflexivity | congruence]|].
+    rewrite Co by assumption. apply fresh. }
+  destruct (finish_one_link LTR ps0 (if flag then i else j) (if flag then j else i) F Hz) as (Fl & Fo & Fc); auto.
+  { destruct flag; [rewrite Ci | rewrite Cj]; cbn; lia. }
+  { unfold parent_index. rewrite Cl. destruct flag; [rewrite Ci | rewrite Cj]; cbn [chain];
+      match goal with |- (if ?c then _ else _) = _ => replace c with false by (symmetry; apply orb_false_iff; split; [apply Z.ltb_ge | apply Z.leb_gt]; lia) end;
+      f_equal; lia. }
+  { destruct flag; lia. }
+  assert (Fya : forall k, ya (getp F k) = 0).
+  { intro k. destruct (Nat.eq_dec k (if flag then i else j)) as [E|E].
+    - rewrite E, Fc. destruct (accum_val_keeps LTR (atype (getp ps0 (if flag then i else j))) (set_chain (getp ps0 (if flag then i else j)) 0)
+                                  (getp ps0 (if flag then j else i)) (accum_sum LTR ps0 (if flag then i else j) (if flag then j else i))) as (_ & A & _).
+      rewrite A. destruct flag; [rewrite Ci | rewrite Cj]; cbn; apply axis.
+    - rewrite Fo by exact E. destruct (Nat.eq_dec k i) as [->|Hki]; [rewrite Ci; destruct flag; cbn; apply axis|].
+      destruct (Nat.eq_dec k j) as [->|Hkj]; [rewrite Cj; destruct flag; cbn; apply axis|].
+      rewrite Co by assumption. apply axis. }
+  assert (Fbetween : forall k, (i < k < j)%nat -> xa (getp F k) = 0 /\ ya (getp F k) = 0).
+  { intros k Hk. rewrite Fo by (destruct flag; lia). rewrite Co by lia. apply between. exact Hk. }
+  destruct (pen_diff F i j ltac:(lia)) as [Px _].
+  rewrite (adv_sum_first_only F i j ltac:(lia) Fbetween) in Px. cbn [fst] in Px.
+  unfold anchor_abs, origin. rewrite !pen_snd_zero by exact Fya. rewrite Px.
+  destruct flag.
+  - rewrite Fc, (Fo j) by lia. unfold accum_val. rewrite Ci, Cj. cbn. f_equal; lia.
+  - rewrite Fc, (Fo i) by lia. unfold accum_val. rewrite Ci, Cj. cbn. f_equal; lia.
+Qed.
+
+End OneConnectionFinal.
+
